@@ -131,3 +131,39 @@ pub fn catch<T>(f: impl FnOnce() -> T) -> Result<T, String> {
 pub fn silence_panics() {
     std::panic::set_hook(Box::new(|_| {}));
 }
+
+
+/// A global allocator that remembers the largest single request since the last reset: lets a suite
+/// judge "memory chosen by the data, not by a declared size" in-process.
+pub mod alloc_probe {
+    use std::alloc::{GlobalAlloc, Layout, System};
+    use std::sync::atomic::{AtomicUsize, Ordering};
+
+    pub struct Counting;
+    static MAX_REQ: AtomicUsize = AtomicUsize::new(0);
+
+    unsafe impl GlobalAlloc for Counting {
+        unsafe fn alloc(&self, l: Layout) -> *mut u8 {
+            MAX_REQ.fetch_max(l.size(), Ordering::Relaxed);
+            System.alloc(l)
+        }
+        unsafe fn dealloc(&self, p: *mut u8, l: Layout) {
+            System.dealloc(p, l)
+        }
+        unsafe fn realloc(&self, p: *mut u8, l: Layout, new_size: usize) -> *mut u8 {
+            MAX_REQ.fetch_max(new_size, Ordering::Relaxed);
+            System.realloc(p, l, new_size)
+        }
+        unsafe fn alloc_zeroed(&self, l: Layout) -> *mut u8 {
+            MAX_REQ.fetch_max(l.size(), Ordering::Relaxed);
+            System.alloc_zeroed(l)
+        }
+    }
+
+    pub fn reset() {
+        MAX_REQ.store(0, Ordering::Relaxed);
+    }
+    pub fn max_request() -> usize {
+        MAX_REQ.load(Ordering::Relaxed)
+    }
+}
